@@ -169,12 +169,15 @@ func Verif_C46_RoundTrip() {
 	c46RoundTrip(n, "PGP MESSAGE", nil)
 }
 
-// Verif_C46_RoundTripQ: registered variant, lengths {0,1,2,3,49}.
+// Verif_C46_RoundTripQ: registered quick variant, lengths 0..3.
 func Verif_C46_RoundTripQ() {
-	ns := []int{0, 1, 2, 3, 49}
-	n := ns[verifrt.Choose(0, len(ns)-1)]
+	n := verifrt.Choose(0, 3)
 	c46RoundTrip(n, "PGP MESSAGE", nil)
 }
+
+// Verif_C46_RoundTrip49: length 49 (68 base64 columns: one full 64-column line plus 4), five
+// split points. Thorough tier only (one split point leaves a 49-byte CRC comparison to the solver).
+func Verif_C46_RoundTrip49() { c46RoundTrip(49, "PGP MESSAGE", nil) }
 
 // Verif_C46_Headers (R, headers): 0-2 headers. The first header's key (1-2 characters) and value
 // (0-2 characters) range over all strings over the alphabet {a, space, ':'} (enumerated by forking,
